@@ -29,6 +29,9 @@ var configs = map[string]Config{
 	// prices below 0.1 in one direction (significant-figure grid finer than 1e-8)
 	"reversed": {Name: "reversed", BalDenomA: "bar", BalDenomB: "foo", BalAmtA: 4000000000, BalAmtB: 150000000, BalWA: 3, BalWB: 1, BalFee: "0.01",
 		CLToken0: "zen", CLToken1: "usdc", CLAmt0: 2000000000, CLAmt1: 700000000, CLSpread: "0.0005", CLTickSp: 1, KeepMs: 2000, PruneLimit: 1},
+	// as "moderate", but the CL pool is created and funded in the same block
+	"sameblock": {Name: "sameblock", BalDenomA: "bar", BalDenomB: "foo", BalAmtA: 1000000000, BalAmtB: 2500000000, BalWA: 1, BalWB: 1, BalFee: "0.003",
+		CLToken0: "eth", CLToken1: "usdc", CLAmt0: 1000000000, CLAmt1: 5000000000, CLSpread: "0.001", CLTickSp: 100, KeepMs: 8000, PruneLimit: 2, SameBlockFund: true},
 	// both pools start at a price of exactly 1
 	"unit": {Name: "unit", BalDenomA: "bar", BalDenomB: "foo", BalAmtA: 1000000000, BalAmtB: 1000000000, BalWA: 1, BalWB: 1, BalFee: "0.003",
 		CLToken0: "eth", CLToken1: "usdc", CLAmt0: 1000000000, CLAmt1: 1000000000, CLSpread: "0.001", CLTickSp: 100, KeepMs: 8000, PruneLimit: 2},
